@@ -11,11 +11,11 @@ WEIGHTS = dict(Copy=6, DataRoundTrip=4, SetPlatform=3, SetPortNr=2, SetProtocolN
 def run(tier, seed):
     rng = random.Random(seed * 236887691 + 16)
     mcs = [core.mc("MC_Acl", "MC_Acl" if tier == "quick" else "MC_Acl_4")]
-    n = 1500 if tier == "quick" else 12000
+    n = 1000 if tier == "quick" else 12000
     jobs = [aclhist.make_history(rng, t, WEIGHTS, nops=rng.randint(2, 8)) for t in range(1, n + 1)]
     aclhist.fill_permutations(rng, jobs)
     res = aclhist.run_histories("C16", jobs, tier, mcs, "operation mix of copy / export-import each followed by a mutation of the twin, and in-place transformations, with user notes on every entry")
-    ol, ojobs, oevents, ovstats = c06.object_level(random.Random(seed * 7 + 1), 5000 if tier == "quick" else 60000, "C16.")
+    ol, ojobs, oevents, ovstats = c06.object_level(random.Random(seed * 7 + 1), 2500 if tier == "quick" else 60000, "C16.")
     res["verdicts"] += ol
     cov = res["coverage"]
     cov["traces_validated_against_impl"] += len(ojobs)
